@@ -16,6 +16,7 @@ def cls(name):
 
 @cls('callsite')
 def _callsite(k, f):
+    if f.get('kind') == 'AGREE': return False        # a disagreement between two spellings is a different violation, never a known wrong value
     if (f['ty'] + '.' + f['op']) not in k['sites']: return False
     if k.get('widths'):
         try: n = int(f['args'][0], 16)
